@@ -98,7 +98,21 @@ def chk_str(case):
     return out
 
 
-CASES = {"rt": chk_rt, "str": chk_str}
+def chk_generic(case):
+    """the general-purpose bech32 entry points of the same module, called the way a non-segwit user (e.g. a lightning
+    invoice or nostr key parser) calls them: no oracle of their own, they only stir whatever state the module keeps"""
+    import bits.bips.bip173 as b173
+    s = bytes.fromhex(case["s"])
+    call(b173.decode_bech32_string, s, constant=case["const"])
+    try:
+        hrp, data = b173.parse_bech32(s)
+        call(b173.assert_valid_bech32, hrp, data, constant=case["const"])
+    except Exception:
+        pass
+    return []
+
+
+CASES = {"rt": chk_rt, "str": chk_str, "generic": chk_generic}
 
 
 def run_case(kind, case):
@@ -116,6 +130,12 @@ def seq_ops(job):
            ("str", {"s": bs[0].hex(), "what": "valid"}), ("str", {"s": bs[2].upper().hex(), "what": "valid upper"}),
            ("str", {"s": (bs[2][:-1] + b"q").hex(), "what": "bad checksum"}), ("str", {"s": B.encode_segwit("bc", 1, bytes(20), const=1).hex(), "what": "wrong constant"}),
            ("str", {"s": b"bc1\x00".hex(), "what": "junk"}), ("str", {"s": bs[4].hex(), "what": "valid v1"})]
+    # a v1 program under the Bech32 constant and a v0 program under Bech32m: valid strings for the GENERIC decoder called with
+    # that constant, not addresses
+    wrong1 = B.encode_segwit("bc", 1, bytes(20), const=1)
+    wrong0 = B.encode_segwit("bc", 0, filler(seed, "c06-w0", 20), const=B.BECH32M_CONST)
+    ops += [("generic", {"s": wrong1.hex(), "const": 1}), ("generic", {"s": wrong0.hex(), "const": B.BECH32M_CONST}),
+            ("str", {"s": wrong0.hex(), "what": "wrong constant v0"})]
     return ops
 
 
@@ -226,6 +246,13 @@ def gen_strs(job):
         for v in range(17, 32):
             for const in (1, B.BECH32M_CONST):
                 yield "version > 16 re-checksummed", B.encode_raw("bc", [v] + B.convertbits(list(f(20)), 8, 5), const)
+        # a valid address wrapped the way other notations wrap it (BIP21 URI scheme, whitespace, quotes, a query part)
+        for b in bases(seed)[:5] + [bases(seed)[6]]:
+            for pre in (b"bitcoin:", b"BITCOIN:", b"bitcoin://", b"Bitcoin:", b"lightning:", b" ", b"\n", b"\t", b'"', b"'", b"<", b"\xef\xbb\xbf"):
+                yield "wrapped address (prefix)", pre + b
+            for suf in (b"?amount=1", b" ", b"\n", b"\r\n", b'"', b"'", b">", b"\x00", b",", b"/"):
+                yield "wrapped address (suffix)", b + suf
+            yield "wrapped address (both)", b"bitcoin:" + b + b"?amount=0.1"
     elif part == "short":
         yield "empty", b""
         for a in range(256):
